@@ -24,7 +24,7 @@ var Quirks = []Quirk{
 	{ID: "C01-primitive-payload-header", Detect: hasPrimitivePayloadHeader, SigAny: []string{"client/encode_decode"}},
 	{ID: "C01-nested-inline-object", Detect: hasNestedInlineObject, SigAny: []string{"/types", "struct{…}"}},
 	{ID: "C01-usertype-in-inline-object", Detect: hasUserTypeInInlineObject, SigAny: []string{"undefined: _"}},
-	{ID: "C01-body-attr-bytes", Detect: hasBodyAttrBytes, SigAny: []string{"*[]byte"}},
+	{ID: "C01-body-attr-optional-nonpointer", Detect: hasBodyAttrOptionalNonPointer, SigAny: []string{"cannot use &_ (value of type *"}},
 	{ID: "C01-alias-path-param-empty-body", Detect: hasAliasPathParamEmptyBody, SigAny: []string{"client/encode_decode: cannot use string(_._)", "client/encode_decode: cannot use"}},
 	{ID: "C01-body-fields-user-type", Detect: hasBodyFieldsUserType, SigAny: []string{"client/types: cannot use _ (variable of type *struct{…}"}},
 	{ID: "C01-body-fields-inline-required", Detect: hasBodyFieldsInlineRequired, SigAny: []string{"== nil (mismatched types", "cannot indirect"}},
@@ -83,7 +83,7 @@ func hasNonStringCookie(d *m.Design) bool {
 			return false
 		}
 		for _, c := range meth.HTTP.Cookies {
-			if f := d.FieldByName(meth.Payload, c.Attr); f != nil && d.Underlying(f.Attr) != m.String {
+			if f := d.FieldByName(meth.Payload, c.Attr); f != nil && f.Attr.Type.Kind != m.String {
 				return true
 			}
 		}
@@ -186,25 +186,24 @@ func hasUserTypeInInlineObject(d *m.Design) bool {
 	})
 }
 
-func hasBodyAttrBytes(d *m.Design) bool {
+// BodyAttrOptionalNonPointer: request Body("x") naming an attribute that is
+// not required and whose Go field is not a pointer (Bytes, or a primitive with a default).
+func BodyAttrOptionalNonPointer(d *m.Design, payload *m.Attr, name string) bool {
+	f := d.FieldByName(payload, name)
+	if f == nil || f.Required {
+		return false
+	}
+	k := d.Underlying(f.Attr)
+	return k == m.Bytes || (k.IsPrimitive() && f.Attr.Default != nil)
+}
+
+func hasBodyAttrOptionalNonPointer(d *m.Design) bool {
 	return eachMethod(d, func(s *m.Service, meth *m.Method) bool {
 		h := meth.HTTP
-		if h == nil {
+		if h == nil || h.Body == nil || h.Body.Mode != "attr" || meth.Payload == nil {
 			return false
 		}
-		if h.Body != nil && h.Body.Mode == "attr" && meth.Payload != nil {
-			if f := d.FieldByName(meth.Payload, h.Body.Attr); f != nil && d.Underlying(f.Attr) == m.Bytes {
-				return true
-			}
-		}
-		for _, r := range h.Responses {
-			if r.Body != nil && r.Body.Mode == "attr" && meth.Result != nil {
-				if f := d.FieldByName(meth.Result, r.Body.Attr); f != nil && d.Underlying(f.Attr) == m.Bytes {
-					return true
-				}
-			}
-		}
-		return false
+		return BodyAttrOptionalNonPointer(d, meth.Payload, h.Body.Attr)
 	})
 }
 
